@@ -378,3 +378,28 @@ class ObserverMonitor(Monitor):
                 raise core.Violation('C18 %s became leader of term %d with votes of %d of %d voters (%r)' % (
                     nid, post.term, n, len(voters), ev), sig='leader-without-voter-majority')
         return g
+
+
+class BatteryMonitor(Monitor):
+    """C15 (replicated part): replicas of a battery that have applied the same number of log
+    entries hold the same contents. ghost: tuple of (applied index, battery states)."""
+
+    def init_ghost(self, model):
+        return ()
+
+    def on_step(self, model, pre_w, post_w, nid, ev, pre, post, out, obs, exc, g):
+        if not post.alive or post.applied is None:
+            return g
+        st = None
+        for k, v in post.extra:
+            if k == 'zbat':
+                st = v
+        if st is None:
+            return g
+        for a, s0 in g:
+            if a == post.applied:
+                if s0 != st:
+                    raise core.Violation('C15 replicas differ: after applying %d log entries one replica holds %r, %s holds %r (%r)' % (
+                        a, s0, nid, st, ev), sig='battery-replicas-differ')
+                return g
+        return tuple(sorted(g + ((post.applied, st),)))
